@@ -84,3 +84,18 @@ prop("C07", "The stored resume position only moves forward along command boundar
        "quick": {"checks": 480, "shards": 16, "timeout": 600},
        "thorough": {"checks": 16000, "shards": 16, "timeout": 5400}}],
      CRASH_ASSUME)
+
+RDB_ASSUME = BASE_ASSUME + ["ref/rdbgen: independent RDB writer (lengths, int/LZF strings, ziplist, listpack, intset, zipmap, quicklist v1/v2, stream listpacks v1-v4) written from the Redis sources' format descriptions",
+                            "fake/ interpreting double: Redis semantics for SET/RPUSH/SADD/ZADD/HSET/XADD/XSETID/XGROUP/XCLAIM/PEXPIRE/DEL/EXISTS/RESTORE (footer version and CRC64 verified with ref/crc64; payload mapped to a value through the generator's registry)",
+                            "stream v4 (IDMP) trailer layout is taken from the tool's own reader comments (no independent source available offline)"]
+
+prop("C03", "A full sync reproduces the source snapshot's dataset on the target", "exploration",
+     "a case = dataset (1-12 keys over DBs 0,1,2,5,15; every type; expiries none / >=1h past / >=1h future; IDLE/FREQ) x per-value RDB encoding (raw/int/LZF strings; linked list, ziplist, quicklist v1, quicklist v2 plain+packed; table/intset 16-32-64/listpack sets; "
+     "skiplist v1 ascii/v2 binary, ziplist, listpack sorted sets incl. +-inf; zipmap (free bytes, len byte 254, 5-byte lengths), ziplist, listpack, table hashes; stream listpacks v1-v4 with SAMEFIELDS/own fields, deleted entries, groups, PELs, empty stream; integer boundary values of every width and sign; "
+     "ziplists with zllen 65535; LZF-compressed blobs) x container (versions 6-13, AUX, RESIZEDB, SLOT_INFO, EXPIRETIME seconds/ms, checksum or 0) x replay configuration (restore on/off, MaxProtoBulkLen 40..512MiB, parallel 1-8, pipe size 1-1024, injective db map, split threshold 48B..16MiB via hook, target version 4-8, reader fragmentation). "
+     "non-trivial (measured) = distinct case in which both replay paths were taken (>=1 RESTORE accepted and >=1 native expansion command executed) and a compact encoding held a negative or >=24-bit integer. "
+     "Oracle: (1) every RESTORE payload == type byte + the writer's serialization of that key + footer(version<=13, CRC64 by ref/crc64); (2) final keyspace of the double == dataset under the db map (type, list order, members, bit-exact scores, fields, stream entries/ids/last-id/entries-added/max-deleted/groups/PELs), no extra keys; (3) |target expiry - source expiry| <= 60 s, past expiries gone or expiring within 60 s.",
+     [{"pkg": "c03", "test": "TestC03",
+       "quick": {"checks": 1600, "shards": 8, "timeout": 600},
+       "thorough": {"checks": 48000, "shards": 16, "timeout": 5400}}],
+     RDB_ASSUME)
